@@ -14,7 +14,8 @@ PLAN = [
              "C03-e": "spanning flag ≡ the statement's conjunction",
              "C03-f": "loop number = Euler sum over components"}),
     ("C08", {"C08-a": "u = det of L[a,b] = Σ x s s", "C08-b": "result.u is that determinant", "C08-c": "determinant of the Cholesky factor"}),
-    ("C09", {"C09-a": "u vectors", "C09-b": "v = Σ x(m²+p²) − uᵀL⁻¹u", "C09-c": "L⁻¹ is the inverse of that L"}),
+    ("C09", {"C09-a": "u vectors", "C09-b": "v = Σ x(m²+p²) − uᵀL⁻¹u", "C09-c": "L⁻¹ is the inverse of that L",
+             "C09-e": "the Vector primitives u and V are written in are componentwise over all D components"}),
     ("C11", {"C11-a": "the returned ratio (u_trop/u)^(D/2)(v_trop/v)^dod = jacobian/normalisation on the same u, v",
              "C11-d": "bookkeeping in every iteration, last edge included"}),
 ]
@@ -30,3 +31,6 @@ def run(ctx):
         return lambda: sample_world(ctx).roles[k]
     restate_f64_primitives(ctx, [lambda: find_sector(ctx, ctx.roles), lambda: ctx.roles.decompose(), kernel("lmatrix"), kernel("uvec"), kernel("vpoly")],
                            "the sector routine, L, u, V, the decomposition and the jacobian assembly", shallow=[lambda: ctx.roles.sample()])
+    from . import common
+    ctx.rule("C02.entry", "the x-space entry hands point, edge data, settings and table to the sampling routine unmodified")
+    common.entry_forwards_inputs(ctx, ctx.roles, "C02.entry")
